@@ -999,6 +999,11 @@ class UserActions(object):
         results.append((col.reverseCol, {'reverseCol': 0}))
 
       if reverse_col_ref:
+        # A formula cannot be set on a two-way reference column (see below); nor can a column that
+        # already has one be linked: the values the formula gives to new records would not reach
+        # the other side.
+        if col_values.get('formula', col.formula):
+          raise ValueError("cannot link a reference column that has a formula")
         # If setting new reverseCol, set its counterpart pointing back to us.
         rcol_rec = self._docmodel.columns.table.get_record(reverse_col_ref)
         check_desired_reverse_col(new_type, rcol_rec)
